@@ -1029,6 +1029,26 @@ static void run_line(char *line)
 		puthexn(buf, len);
 		fputs("\n", obs);
 		free(buf);
+	} else if (!strcmp(w[0], "PP") && n == 3) {
+		/* print context a to memory, parse that text into context b */
+		char *buf = NULL;
+		size_t len = 0;
+		FILE *f;
+		int rc, fds0;
+		char tail[64];
+
+		NEEDCTX(1);
+		NEEDCTX(2);
+		f = open_memstream(&buf, &len);
+		cfg_print(CTX(1), f);
+		fclose(f);
+		fds0 = count_fds();
+		op_begin();
+		rc = cfg_parse_buf(CTX(2), buf);
+		snprintf(rbuf, sizeof rbuf, "R %d\n", rc);
+		snprintf(tail, sizeof tail, "I %d %d\n", cfg_include_stack_ptr, count_fds() - fds0);
+		op_end_r(rbuf, tail);
+		free(buf);
 	} else if (!strcmp(w[0], "PO") && n == 3) {
 		char *p = unhex(w[2], NULL);
 		cfg_opt_t *o;
